@@ -172,6 +172,109 @@ def filler(tag: str, n: int) -> bytes:
     return out[:n]
 
 
+# ---------------------------------------------------------------- logging configuration of the user
+class debug_logging:
+    """with debug_logging(): the user has switched on debug logging of the library (every record is formatted, then dropped)."""
+
+    class _Sink(logging.Handler):
+        def emit(self, record):
+            record.getMessage()
+
+    def __enter__(self):
+        self.h = self._Sink()
+        self.lg = logging.getLogger("msmart")
+        self.old = self.lg.level
+        logging.disable(logging.NOTSET)
+        self.lg.setLevel(logging.DEBUG)
+        self.lg.addHandler(self.h)
+        self.lg.propagate = False
+        return self
+
+    def __exit__(self, *a):
+        self.lg.removeHandler(self.h)
+        self.lg.setLevel(self.old)
+        self.lg.propagate = True
+        logging.disable(logging.CRITICAL)
+        return False
+
+
+# ---------------------------------------------------------------- wall-clock watchdog
+class WallClockExceeded(BaseException):
+    """One execution of the code under test did not finish within its REAL-time budget (the virtual loop cannot pre-empt a
+    synchronous loop inside the library): reported as that execution's outcome, i.e. neither result, error nor timeout."""
+
+
+class ShardBudgetExceeded(BaseException):
+    """The whole shard ran far longer than it ever does on the unchanged tree (state space blown up by the tree under test)."""
+
+
+EXEC_BUDGET = float(os.environ.get("VERIF_EXEC_BUDGET", "30"))
+_DEADLINE = {"exec": None, "shard": None}
+_HITS = [0]        # executions stopped by the watchdog in this process; later ones get a short leash so the shard still ends
+
+
+def _rearm() -> None:
+    import signal as _sig
+    import time as _rt
+    now = _REAL_MONO()
+    pend = [d for d in _DEADLINE.values() if d is not None]
+    try:
+        _sig.setitimer(_sig.ITIMER_REAL, max(min(pend) - now, 0.001) if pend else 0)
+    except (ValueError, OSError):
+        pass
+
+
+def _on_alarm(signum, frame):
+    now = _REAL_MONO()
+    if _DEADLINE["exec"] is not None and now >= _DEADLINE["exec"]:
+        _DEADLINE["exec"] = None
+        _HITS[0] += 1
+        if _HITS[0] >= 8 and _DEADLINE["shard"] is not None:
+            _DEADLINE["shard"] = now + 1.0      # this tree hangs again and again: stop the shard, keep what it found
+        _rearm()
+        raise WallClockExceeded("execution still running after its real-time budget")
+    if _DEADLINE["shard"] is not None and now >= _DEADLINE["shard"]:
+        _DEADLINE["shard"] = now + 5.0          # keep knocking until the exception gets through
+        _rearm()
+        raise ShardBudgetExceeded("shard exceeded its wall-clock budget")
+    _rearm()
+
+
+def arm_shard_budget(seconds: Optional[float]) -> None:
+    import signal as _sig
+    try:
+        _sig.signal(_sig.SIGALRM, _on_alarm)
+    except ValueError:
+        return
+    _DEADLINE["shard"] = None if seconds is None else _REAL_MONO() + seconds
+    _DEADLINE["exec"] = None
+    _rearm()
+
+
+class exec_guard:
+    """with exec_guard(budget): ... - real-time bound for one execution of the code under test."""
+
+    def __init__(self, budget: Optional[float] = None) -> None:
+        self.budget = EXEC_BUDGET if budget is None else budget
+
+    def __enter__(self):
+        import signal as _sig
+        try:
+            if _sig.getsignal(_sig.SIGALRM) is not _on_alarm:
+                _sig.signal(_sig.SIGALRM, _on_alarm)
+        except ValueError:
+            return self
+        self.prev = _DEADLINE["exec"]
+        _DEADLINE["exec"] = _REAL_MONO() + (self.budget if not _HITS[0] else min(self.budget, 2.0))
+        _rearm()
+        return self
+
+    def __exit__(self, *a):
+        _DEADLINE["exec"] = getattr(self, "prev", None)
+        _rearm()
+        return False
+
+
 # ---------------------------------------------------------------- world
 class World:
     """One execution's universe: fresh loop, fresh network, reset class state."""
@@ -199,8 +302,11 @@ class World:
     def now(self) -> float:
         return self.loop.time()
 
-    def run(self, coro, *, cancel_at: Optional[float] = None, limit: float = 1e7):
-        """Run `coro` to completion.  Returns ("ok", value) | ("exc", exception) | ("deadlock", None)."""
+    def run(self, coro, *, cancel_at: Optional[float] = None, limit: float = 1e7, budget: Optional[float] = None):
+        """Run `coro` to completion.  Returns ("ok", value) | ("exc", exception) | ("deadlock", None).
+
+        budget: real seconds this one execution may take (default EXEC_BUDGET); exceeding it is the outcome
+        ("exc", WallClockExceeded)."""
         loop = self.loop
         _CUR[0] = self
         asyncio.set_event_loop(loop)
@@ -209,8 +315,11 @@ class World:
             loop.call_at(cancel_at, task.cancel)
         try:
             try:
-                v = loop.run_until_complete(task)
+                with exec_guard(budget):
+                    v = loop.run_until_complete(task)
                 return ("ok", v)
+            except WallClockExceeded as e:
+                return ("exc", e)
             except Deadlock:
                 task.cancel()
                 return ("deadlock", None)
@@ -317,8 +426,23 @@ def explore(run: Callable[[Chooser], Any], bound: int, on_exec: Callable[[Choose
 
 
 # ---------------------------------------------------------------- digests
+def _canon(obj):
+    """Observation without incidental identity: buffers by content, no object addresses."""
+    if isinstance(obj, (memoryview, bytearray)):
+        return bytes(obj)
+    if isinstance(obj, (list, tuple)):
+        return type(obj)(_canon(x) for x in obj)
+    if isinstance(obj, dict):
+        return {k: _canon(v) for k, v in obj.items()}
+    if isinstance(obj, str):
+        import re
+        return re.sub(r" at 0x[0-9a-fA-F]+", "", obj)
+    return obj
+
+
 def digest(obj) -> str:
-    return hashlib.sha256(repr(obj).encode()).hexdigest()[:16]
+    import re
+    return hashlib.sha256(re.sub(r" at 0x[0-9a-fA-F]+", "", repr(_canon(obj))).encode()).hexdigest()[:16]
 
 
 class Determinism:
